@@ -54,7 +54,7 @@ fn root_unguarded(net: NetID, fee_mult: u128, with_wallet: bool) -> (World, Node
     let s = u.seal(None);
     let model = model_of(&s, &universe, &builtin_pool_keys(), &block_txs);
     let h0 = s.header();
-    let node = Node { real: Real::Sealed(s), model, path: Arc::new(vec![format!("genesis[{:?}]", net)]), trace: Arc::new(vec![json!({"root": format!("{:?}", net), "fee_multiplier": fee_mult.to_string(), "wallet": with_wallet})]), lineage: Arc::new(vec![h0]), salt: 0 };
+    let node = Node::new_root(Real::Sealed(s), model, format!("genesis[{:?}]", net), json!({"root": format!("{:?}", net), "fee_multiplier": fee_mult.to_string(), "wallet": with_wallet}), vec![h0]);
     (w, node)
 }
 
